@@ -15,30 +15,30 @@ import (
 )
 
 type fsNode struct {
-	name    string
-	isDir   bool
-	data    []Value // file content (byte terms)
-	vsize   int     // logical size when larger than len(data): the rest reads as zeros (sparse file)
-	mtime   Value   // time.Time value
-	mode    uint32
-	dirty   bool // written since last fsync (ghost)
+	name         string
+	isDir        bool
+	data         []Value // file content (byte terms)
+	vsize        int     // logical size when larger than len(data): the rest reads as zeros (sparse file)
+	mtime        Value   // time.Time value
+	mode         uint32
+	dirty        bool // written since last fsync (ghost)
 	entriesDirty bool // directory entries changed since last fsync of the directory (ghost)
-	complete bool // ghost: all bytes written and closed (crash consistency)
-	openW   int  // open writers
-	gen     int  // identity of the inode (renames keep it)
+	complete     bool // ghost: all bytes written and closed (crash consistency)
+	openW        int  // open writers
+	gen          int  // identity of the inode (renames keep it)
 }
 
 type fsState struct {
-	nodes   map[string]*fsNode
-	ops     int      // count of mutating operations so far
-	crashAt int      // crash immediately before mutating op number crashAt (1-based); 0 = never
-	trace   []string // ghost log of operations
-	faults  bool     // when true every operation asks vx.Fault whether to fail
-	nextGen int
-	strict  bool // unknown paths are errors (ENOENT) rather than unsupported
-	events  []string // ghost: ordering-rule violations observed ("rename-of-unsynced-file <path>", ...)
-	published []string // names that came into existence by rename, in order
-	unlinked  []string // names removed, in order
+	nodes     map[string]*fsNode
+	ops       int      // count of mutating operations so far
+	crashAt   int      // crash immediately before mutating op number crashAt (1-based); 0 = never
+	trace     []string // ghost log of operations
+	faults    bool     // when true every operation asks vx.Fault whether to fail
+	nextGen   int
+	strict    bool                // unknown paths are errors (ENOENT) rather than unsupported
+	events    []string            // ghost: ordering-rule violations observed ("rename-of-unsynced-file <path>", ...)
+	published []string            // names that came into existence by rename, in order
+	unlinked  []string            // names removed, in order
 	pending   map[string][]string // directory -> names published in it since its last fsync
 }
 
